@@ -257,9 +257,17 @@ func (r *Run) Parallel(n, chunk int64, fn func(worker int, lo, hi int64)) bool {
 
 func loadKnown(id string) map[string]string {
 	res := map[string]string{}
-	f, err := os.Open(filepath.Join(Root, "known-findings.jsonl"))
+	files, _ := filepath.Glob(filepath.Join(Root, "findings.d", "*.jsonl")) // work-in-progress lists, merged into known-findings.jsonl on integration
+	for _, fn := range append([]string{filepath.Join(Root, "known-findings.jsonl")}, files...) {
+		loadKnownFile(fn, id, res)
+	}
+	return res
+}
+
+func loadKnownFile(fn, id string, res map[string]string) {
+	f, err := os.Open(fn)
 	if err != nil {
-		return res
+		return
 	}
 	defer f.Close()
 	sc := bufio.NewScanner(f)
@@ -275,7 +283,6 @@ func loadKnown(id string) map[string]string {
 		}
 		res[e.Signature] = e.What
 	}
-	return res
 }
 
 func (r *Run) finish() int {
